@@ -262,11 +262,12 @@ def estResult (gs gm : Bool) (f : ℕ → ℚ) (r : RS) : Gen.EstResult K × ℕ
   (if gs then .samples ((r.count : ℤ) : K) (r.mean : K) (r.M2 : K) (xsOf true f r.count.toNat)
    else if gm then .mean (r.mean : K) else .stats ((r.count : ℤ) : K) (r.mean : K) (r.M2 : K), r.count.toNat)
 
-theorem estimateFromRepeats_refines (sqrt : K → K) (hsqrt : IsSqrt sqrt) (inf : K) (f : ℕ → ℚ) (P : Params)
-    (gs gm : Bool) :
-    Gen.estimateFromRepeats (fun a => |a|) sqrt inf (fun n => ((f n : ℚ) : K)) (max 1 P.maxSamples.toNat)
+/-- the translated function with `fuel` iterations allowed is the model's loop with that fuel, then the `get=` modes -/
+theorem estimateFromRepeats_loop (sqrt : K → K) (hsqrt : IsSqrt sqrt) (inf : K) (f : ℕ → ℚ) (P : Params)
+    (gs gm : Bool) (fuel : ℕ) :
+    Gen.estimateFromRepeats (fun a => |a|) sqrt inf (fun n => ((f n : ℚ) : K)) fuel
         (P.rtol : K) (P.tolScale : K) gs gm P.minSamples P.maxSamples
-      = estResult gs gm f (estimate f P) := by
+      = estResult gs gm f (loop f P fuel 0 RS.init) := by
   simp only [Gen.estimateFromRepeats, Gen.Default.estimateFromRepeats]
   rw [forCount_loop0 gs f P _ ?_ _ _ ?_]
   · -- after the loop: the `get=` modes
@@ -286,10 +287,49 @@ theorem estimateFromRepeats_refines (sqrt : K → K) (hsqrt : IsSqrt sqrt) (inf 
     simp only [hst, hst', RS.toK, hup, ← Rat.cast_mul, hconv, xsOf_succ]
     simp only [stopNow, Gen.repCheck, Gen.Default.repCheck, Gen.repHitMax, Gen.Default.repHitMax, Gen.repRtol,
       Gen.Default.repRtol, Gen.repAtol, Gen.Default.repAtol]
-    cases (run (pre f (n + 1))).converged P.rtol (P.tolScale * P.rtol) <;>
-      by_cases h1 : (n : ℤ) > P.minSamples <;> by_cases h2 : (n : ℤ) ≥ P.maxSamples - 1 <;> simp [h1, h2]
+    clear hup hconv hst hst'
+    -- whatever the spelling and nesting of the source's tests: same state on every path, and the loop breaks iff `stopNow`
+    refine Prod.ext ?_ ?_
+    · split_ifs <;> rfl
+    · cases (run (pre f (n + 1))).converged P.rtol (P.tolScale * P.rtol) <;> split_ifs <;> simp_all <;> omega
   · -- before the loop
     simp [loopSt, xsOf, rsInit_refines, RS.toK, RS.init, pre]
+
+/-- the fuel is not an artefact: any number of iterations from `max 1 max_samples` on gives the same result -/
+theorem loop_fuel (f : ℕ → ℚ) (P : Params) (hmax : 1 ≤ P.maxSamples) (fuel : ℕ) (hf : P.maxSamples.toNat ≤ fuel) :
+    loop f P fuel 0 RS.init = estimate f P := by
+  have hlast : stops f P (P.maxSamples.toNat - 1) = true := by
+    simp only [stops, stopNow, Gen.repHitMax, Gen.Default.repHitMax, Bool.or_eq_true, decide_eq_true_eq]
+    right; omega
+  obtain ⟨k, _, _, hk, hks, hkb⟩ := loop_first_stop f P fuel 0 (by intro j hj; omega)
+    ⟨P.maxSamples.toNat - 1, by omega, by omega, hlast⟩
+  obtain ⟨k', _, _, hk', hks', hkb'⟩ := loop_first_stop f P (max 1 P.maxSamples.toNat) 0 (by intro j hj; omega)
+    ⟨P.maxSamples.toNat - 1, by omega, by omega, hlast⟩
+  have hkk : k = k' := by
+    rcases Nat.lt_trichotomy k k' with h | h | h
+    · rw [hkb' k h] at hks; exact Bool.noConfusion hks
+    · exact h
+    · rw [hkb k' h] at hks'; exact Bool.noConfusion hks'
+  have e0 : run (pre f 0) = RS.init := rfl
+  rw [e0] at hk hk'
+  unfold estimate
+  rw [hk, hk', hkk]
+
+/-- **refinement**: `Stats.estimate` is the translated `estimate_from_repeats` (every `get=` mode, any exact square root,
+whatever `np.inf` stands for) -/
+theorem estimateFromRepeats_refines (sqrt : K → K) (hsqrt : IsSqrt sqrt) (inf : K) (f : ℕ → ℚ) (P : Params)
+    (gs gm : Bool) :
+    Gen.estimateFromRepeats (fun a => |a|) sqrt inf (fun n => ((f n : ℚ) : K)) (max 1 P.maxSamples.toNat)
+        (P.rtol : K) (P.tolScale : K) gs gm P.minSamples P.maxSamples
+      = estResult gs gm f (estimate f P) :=
+  estimateFromRepeats_loop sqrt hsqrt inf f P gs gm _
+
+theorem estimateFromRepeats_refines_fuel (sqrt : K → K) (hsqrt : IsSqrt sqrt) (inf : K) (f : ℕ → ℚ) (P : Params)
+    (gs gm : Bool) (hmax : 1 ≤ P.maxSamples) (fuel : ℕ) (hf : P.maxSamples.toNat ≤ fuel) :
+    Gen.estimateFromRepeats (fun a => |a|) sqrt inf (fun n => ((f n : ℚ) : K)) fuel
+        (P.rtol : K) (P.tolScale : K) gs gm P.minSamples P.maxSamples
+      = estResult gs gm f (estimate f P) := by
+  rw [estimateFromRepeats_loop sqrt hsqrt inf f P gs gm fuel, loop_fuel f P hmax fuel hf]
 
 end generic
 end Stats
